@@ -58,23 +58,42 @@ fn noop_answered(c: &mut Cli, opaque: u32, wait: Duration) -> bool {
     }
     c.sent += 24;
     let t0 = Instant::now();
+    let mut want = before + 1;
     loop {
-        c.read_frames(before + 1, Duration::from_millis(20));
-        if parse_prefix(&c.rx).iter().skip(before).any(|r| r.opaque == opaque && r.status == st::OK) {
+        c.read_frames(want, Duration::from_millis(20));
+        let all = parse_prefix(&c.rx);
+        if all.iter().skip(before).any(|r| r.opaque == opaque && r.status == st::OK) {
             return true;
         }
+        // answers to earlier probes of this connection may come first
+        want = all.len() + 1;
         if c.end != End::Open || t0.elapsed() > wait {
             return false;
         }
     }
 }
 
+/// waits until the free permits equal `want` and stay there (a release/acquire pair of the accept
+/// loop passes through `want` transiently, so one matching sample is not quiescence)
 fn wait_permits(srv: &Server, want: usize, timeout: Duration) -> usize {
     let t0 = Instant::now();
     loop {
         let p = srv.permits();
-        if p == want || t0.elapsed() > timeout {
-            return p;
+        if p == want {
+            let mut stable = true;
+            for _ in 0..4 {
+                std::thread::sleep(Duration::from_millis(10));
+                if srv.permits() != want {
+                    stable = false;
+                    break;
+                }
+            }
+            if stable {
+                return p;
+            }
+        }
+        if t0.elapsed() > timeout {
+            return srv.permits();
         }
         std::thread::sleep(Duration::from_millis(2));
     }
@@ -104,7 +123,11 @@ fn scenario_c17(ctx: &Ctx, case: u64, local: &mut BTreeMap<String, u64>) -> (Vec
             return (viols, kinds, reached_limit);
         }};
     }
-    for step in 0..nlife {
+    let mut endings_done = 0usize;
+    for step in 0..nlife * 5 {
+        if endings_done >= nlife {
+            break;
+        }
         // keep the served connections alive (idle timeout 2 s)
         for s in served.iter_mut() {
             opq += 1;
@@ -112,8 +135,8 @@ fn scenario_c17(ctx: &Ctx, case: u64, local: &mut BTreeMap<String, u64>) -> (Vec
                 fail!(&["C17", "C18"], "served-connection-lost", format!("step {}: a served, healthy connection stopped answering", step));
             }
         }
-        // 1. a new connection arrives
-        if waiter.is_none() {
+        // 1. a new connection arrives (more often than one leaves, so that the limit is reached)
+        if waiter.is_none() && rng.gen_bool(0.8) {
             if let Ok(mut c) = Cli::connect(srv.port) {
                 opq += 1;
                 if served.len() < limit {
@@ -125,6 +148,9 @@ fn scenario_c17(ctx: &Ctx, case: u64, local: &mut BTreeMap<String, u64>) -> (Vec
                             fail!(&["C17"], "slot-leak", format!("step {}: {} connections are served, limit {}, but only {} permits are free and a new connection is not served", step, served.len(), limit, p));
                         }
                         *local.entry("inconclusive:slow-pickup".into()).or_insert(0) += 1;
+                        if std::env::var("MCV_DEBUG").is_ok() {
+                            eprintln!("SLOW PICKUP case {} limit {} permits {} served {}: {:#?}", case, limit, p, served.len(), trace);
+                        }
                         return (viols, kinds, reached_limit);
                     }
                     trace.push(format!("step {}: new connection served ({} open)", step, served.len() + 1));
@@ -146,6 +172,7 @@ fn scenario_c17(ctx: &Ctx, case: u64, local: &mut BTreeMap<String, u64>) -> (Vec
             let w = waiter.take().unwrap();
             if rng.gen_bool(0.5) {
                 trace.push(format!("step {}: waiting connection resets (RST) before being served", step));
+                *local.entry("waiters_reset_before_served".into()).or_insert(0) += 1;
                 w.reset();
             } else {
                 trace.push(format!("step {}: waiting connection closes before being served", step));
@@ -154,9 +181,11 @@ fn scenario_c17(ctx: &Ctx, case: u64, local: &mut BTreeMap<String, u64>) -> (Vec
             std::thread::sleep(Duration::from_millis(20));
         }
         // 3. one served connection ends
-        if served.is_empty() {
+        let p_end = if served.len() >= limit { 0.7 } else { 0.35 };
+        if served.is_empty() || !rng.gen_bool(p_end) {
             continue;
         }
+        endings_done += 1;
         let idx = rng.gen_range(0..served.len());
         let kind = ENDINGS[rng.gen_range(0..ENDINGS.len())];
         kinds.push(kind);
@@ -244,6 +273,9 @@ fn scenario_c17(ctx: &Ctx, case: u64, local: &mut BTreeMap<String, u64>) -> (Vec
                     fail!(&["C17"], "slot-leak", format!("step {}: after {:?} the waiting connection is not served: free permits {}, open served {}, limit {}", step, kind, p, served.len(), limit));
                 }
                 *local.entry("inconclusive:slow-pickup".into()).or_insert(0) += 1;
+                if std::env::var("MCV_DEBUG").is_ok() {
+                    eprintln!("SLOW PICKUP(waiter) case {} limit {} permits {} served {} waiter_end {:?} waiter_obs {:?}: {:#?}", case, limit, p, served.len(), w.end, conn_log().get(w.port), trace);
+                }
                 return (viols, kinds, reached_limit);
             }
         }
